@@ -15,7 +15,7 @@ from props.common import scale, depth_of
 from props.container_common import CODECS, spec_parse, expected_meta, render, ParseError
 
 THEOREMS = ["c07_history", "c07_flush_reads_back", "c07_failed_write_contributes_nothing", "c07_header_never_changes",
-            "c07_reopen_resumes", "c07_appendable_table", "Tables.appendable_table"]
+            "c07_reopen_resumes", "c07_reopen_is_flush", "c07_appendable_table", "Tables.appendable_table"]
 TARGETS = ["Properties.TablesContainer", "Properties.C07"]
 
 
@@ -255,7 +255,7 @@ def run(tier, seed):
         try:
             parsed = spec_parse(hc["data"])
             schema_text = dict(parsed["meta"]).get("avro.schema", b"").decode()
-        except ParseError:
+        except (ParseError, UnicodeDecodeError):
             parsed, schema_text = None, ""
         hc["parsed"] = parsed
         meta = expected_meta(hc["meta"], schema_text, hc["codec"])
